@@ -75,18 +75,35 @@ FALSY_KEYS = {
 KEYS.update(FALSY_KEYS)
 QUICK_FALSY = list(FALSY_KEYS)   # cheap (about 1 CPU second per type): the quick tier explores all of them
 
+# Key types whose natural PYTHON-object order (the order of the str / tuple / None objects pytezos accepts in from_python_object)
+# disagrees with the Michelson order: base58 text of mixed kinds (tz1 < tz2 < KT1 but 'K' < 't'; edpk < sppk < p2pk but 'p' < 's'),
+# alone and inside option / or / pair keys; the inferred branch names of an `or` ('string_0' > 'address_1' although Left < Right).
+ADDRESS, KEY, TIMESTAMP = ('address',), ('key',), ('timestamp',)
+_TZ1, _TZ2, _KT1 = ('tz1', T.HF, ''), ('tz2', T.H0, ''), ('KT1', T.H0, '')
+PYORDER_KEYS = {
+    KEY: [('p2pk', b'\x02' + b'\x01' * 32), ('edpk', b'\xff' * 32), ('sppk', b'\x02' + bytes(32)), ('edpk', bytes(32))],
+    ('pair', ADDRESS, NAT): [(_KT1, 0), (_TZ1, 5), (_TZ1, 1), (_TZ2, 0)],
+    ('option', ADDRESS): [('Some', _KT1), None, ('Some', _TZ1), ('Some', _TZ2)],
+    ('or', STRING, ADDRESS): [('R', _KT1), ('L', 'b'), ('R', _TZ1), ('L', 'B')],
+}
+KEYS.update(PYORDER_KEYS)
+# cheap as well; timestamp joins the quick tier because its Python objects have two presentations (int / RFC 3339 text)
+QUICK_PYORDER = list(PYORDER_KEYS) + [TIMESTAMP]
+
 
 VALS = {'map': (NAT, [0, 1]), 'mapS': (STRING, ['', 'a']), 'mapB': (E.BOOL, [False, True])}
 
 
 def shards(tier, seed):
-    types = QUICK_TYPES if tier == 'quick' else [t for t in KEYS if t not in FALSY_KEYS]
+    types = QUICK_TYPES if tier == 'quick' else [t for t in KEYS if t not in FALSY_KEYS and t not in PYORDER_KEYS]
     n = 4
     out = [(kind, t, n) for t in types for kind in ('set', 'map')]
     # maps whose values are falsy Python objects ('' / False): "absent" must never be confused with "bound to an empty value"
     out += [(kind, t, n) for t in (types[:3] if tier == 'quick' else types) for kind in ('mapS', 'mapB')]
     # keys that are / contain falsy Python objects next to None (see FALSY_KEYS)
     out += [(kind, t, n) for t in (QUICK_FALSY if tier == 'quick' else list(FALSY_KEYS)) for kind in ('set', 'map')]
+    # keys whose Python-object order is not the Michelson order (see PYORDER_KEYS); timestamp is already in the thorough list
+    out += [(kind, t, n) for t in (QUICK_PYORDER if tier == 'quick' else list(PYORDER_KEYS)) for kind in ('set', 'map')]
     return out
 
 
